@@ -191,6 +191,21 @@ func runC19(root string, c C19Case) (nontrivial bool, v *Violation) {
 				}
 				sawTOML = sawTOML || c19IsTOML(file)
 			}
+		case "series":
+			// a long series of modifications that stays below the kernel's queue limit, alternating between two .toml files so
+			// that the kernel merges nothing, while the consumer is busy (it reads again only after the series): however many
+			// events piled up - 255, 256, 257, 65536 ... - the consumer is owed a notification
+			for k := 0; k < op.N; k++ {
+				file := op.File
+				if k%2 == 1 {
+					file = "device.toml"
+				}
+				if wv := write(op.Dir, file, ""); wv != nil {
+					return false, wv
+				}
+			}
+			sawTOML = true
+			classify("series of .toml modifications while the consumer is busy")
 		case "flood":
 			// more modifications than the kernel's event queue holds (fs.inotify.max_queued_events, 16384 here) while the
 			// consumer is not reading: events get lost in the kernel - what must survive is the watcher itself
@@ -324,10 +339,17 @@ func genC19(t *rapid.T) C19Case {
 			op.Kind = "write"
 			op.File = rapid.SampledFrom(c19Files).Draw(t, "file")
 			op.How = rapid.SampledFrom([]string{"", "", "truncate", "append"}).Draw(t, "how")
-		case k < 9:
+		case k < 8:
 			op.Kind = "burst"
 			op.File = rapid.SampledFrom(c19Files).Draw(t, "file")
 			op.N = rapid.IntRange(1, 20).Draw(t, "burst")
+		case k == 8:
+			op.Kind = "series"
+			op.File = "a.toml"
+			op.N = rapid.SampledFrom([]int{64, 127, 128, 129, 255, 256, 256, 257, 511, 512, 513, 768, 1024, 2048, 4096}).Draw(t, "series")
+			if rapid.Bool().Draw(t, "offByFew") {
+				op.N += rapid.IntRange(-2, 2).Draw(t, "few")
+			}
 		default:
 			op.Kind = "sleep"
 			op.File = ""
@@ -359,6 +381,8 @@ func (c C19Case) Sample() interface{} {
 			s = fmt.Sprintf("write %s/%s %s", c12Dirs[o.Dir][len("hidi-config/"):], o.File, o.How)
 		case "flood":
 			s = fmt.Sprintf("flood x%d on %s/{a,device}.toml", o.N, c12Dirs[o.Dir][len("hidi-config/"):])
+		case "series":
+			s = fmt.Sprintf("series x%d alternating %s/{a,device}.toml", o.N, c12Dirs[o.Dir][len("hidi-config/"):])
 		case "burst":
 			s = fmt.Sprintf("burst x%d from %s/%s", o.N, c12Dirs[o.Dir][len("hidi-config/"):], o.File)
 		default:
